@@ -111,8 +111,9 @@ def run(rep: Report, tier: str) -> None:
             rep.check(ok, rd, look.module, look.qualname, f"non-returning path raises ({name.split('(')[0]})", f"a path of get_acquired_lot_for_taxable_event ends by raising {name[:100]}", loc(p.exit_node))
         else:
             rep.violation(rd, look.module, look.qualname, f"path ends by '{p.exit}'", "a path of get_acquired_lot_for_taxable_event falls off the end (returns None): the caller would continue without a lot", loc(look.node))
-    last = look.node.body[-1]
-    rep.check(isinstance(last, ast.Raise) and "AcquiredLotsExhaustedException" in unparse(last), rd, look.module, look.qualname, "no lot found => AcquiredLotsExhaustedException", "get_acquired_lot_for_taxable_event no longer ends in 'raise AcquiredLotsExhaustedException()'", loc(last))
+    # (decided on the paths above: none falls off the end; where the raise statements sit - one trailing raise or guard clauses - does not matter)
+    exhausted = [n for n in ast.walk(look.node) if isinstance(n, ast.Raise) and "AcquiredLotsExhaustedException" in unparse(n)]
+    rep.check(bool(exhausted), rd, look.module, look.qualname, "no lot found => AcquiredLotsExhaustedException", "get_acquired_lot_for_taxable_event never raises AcquiredLotsExhaustedException: the caller relies on it to report 'lots exhausted'", loc(look.node))
     te = prog.func(engine.TE, "_create_unfiltered_gain_and_loss_set")
     tries = [n for n in ast.walk(te.node) if isinstance(n, ast.Try)]
     if len(tries) != 1:
